@@ -23,5 +23,5 @@ ITEMS = [
      "live": ("def live(a):\n"
               "    D = MOD.BleDirection\n"
               "    d = D.MASTER_TO_SLAVE if a['m2s'] else D.SLAVE_TO_MASTER\n"
-              "    return MOD.LinkLayerCryptoManager.generate_nonce(NS(master_cnt=a['mcnt'], slave_cnt=a['scnt'], iv=a['ivb']), d)\n")},
+              "    return MOD.LinkLayerCryptoManager.generate_nonce(OBJ(MOD.LinkLayerCryptoManager, master_cnt=a['mcnt'], slave_cnt=a['scnt'], iv=a['ivb']), d)\n")},
 ]
